@@ -395,6 +395,39 @@ Example cg_breakdown_or_terminates_nonvacuous : LinOp 2 (@sp_mul AQ exq_s) /\ Sy
 Proof. split; [exact exq_lin|]. split; [exact (sp_mul_SymOp AQ_RingLaws exq_s 2 exq_s_wf eq_refl eq_refl exq_s_sym)|].
   apply (@ok_k_witness SAQ). vm_compute. reflexivity. Qed.
 
+(* for the implementation's matrix type (symmetric storage, any field): after at least one iteration <b - A x, b - A x0> = 0 for the returned x *)
+Theorem cg_final_residual_orth_initial_sparse : forall (A : SArith), FieldLaws (SA A) ->
+  forall (s : sparse (SA A)) (b x0 : list (T (SA A))) max tol res x g,
+  wfS s -> sp_symmetric s ->
+  run_sparse CG s b x0 max tol = Ok (res, x, g) ->
+  g_exit g = 1 \/ (g_exit g = 2 /\ 1 <= max) ->
+  dot_raw (zipw sub b (sp_apply s x)) (zipw sub b (sp_apply s x0)) = zero.
+Proof. intros A FL s b x0 max tol res x g. exact (cg_final_residual_orth_initial_sparse FL s b x0 max tol res x g). Qed.
+Check cg_final_residual_orth_initial_sparse : forall (A : SArith), FieldLaws (SA A) ->
+  forall (s : sparse (SA A)) (b x0 : list (T (SA A))) max tol res x g,
+  wfS s -> sp_symmetric s ->
+  run_sparse CG s b x0 max tol = Ok (res, x, g) ->
+  g_exit g = 1 \/ (g_exit g = 2 /\ 1 <= max) ->
+  dot_raw (zipw sub b (sp_apply s x)) (zipw sub b (sp_apply s x0)) = zero.
+Print Assumptions cg_final_residual_orth_initial_sparse.
+Example cg_final_residual_orth_initial_sparse_nonvacuous : wfS exq_s /\ sp_symmetric exq_s.
+Proof. split; [exact exq_s_wf | exact exq_s_sym]. Qed.
+
+Theorem cg_breakdown_or_terminates_sparse : forall (A : SArith), FieldLaws (SA A) ->
+  forall (s : sparse (SA A)) (b x0 : list (T (SA A))) max tol res x g,
+  wfS s -> sp_symmetric s -> sp_rows s + 2 <= max ->
+  run_sparse CG s b x0 max tol = Ok (res, x, g) ->
+  exists k, res = IOk k /\ k <= sp_rows s + 1.
+Proof. intros A FL s b x0 max tol res x g. exact (cg_breakdown_or_terminates_sparse FL s b x0 max tol res x g). Qed.
+Check cg_breakdown_or_terminates_sparse : forall (A : SArith), FieldLaws (SA A) ->
+  forall (s : sparse (SA A)) (b x0 : list (T (SA A))) max tol res x g,
+  wfS s -> sp_symmetric s -> sp_rows s + 2 <= max ->
+  run_sparse CG s b x0 max tol = Ok (res, x, g) ->
+  exists k, res = IOk k /\ k <= sp_rows s + 1.
+Print Assumptions cg_breakdown_or_terminates_sparse.
+Example cg_breakdown_or_terminates_sparse_nonvacuous : wfS exq_s /\ sp_symmetric exq_s.
+Proof. split; [exact exq_s_wf | exact exq_s_sym]. Qed.
+
 (* the dimension argument, any field: pairwise orthogonal vectors of F^n none of which is isotropic are at most n *)
 Theorem orthogonal_family_bound : forall (A : SArith), FieldLaws (SA A) -> forall n (vs : list (list (T (SA A)))),
   Forall (fun v => length v = n) vs -> ForallOrdPairs (fun u v => dot_raw u v = zero) vs ->
